@@ -173,6 +173,15 @@ func checkBinary(p []byte, p2 []byte) string {
 	return ""
 }
 
+// c09Second: the second binary of a message; for multi-chunk cases a different
+// multi-chunk binary, so that two large values are alive at once.
+func c09Second(n int) []byte {
+	if n > binChunk {
+		return mkBytes(n-7, uint64(n)+99)
+	}
+	return mkBytes(n%7, 3)
+}
+
 func c09Lengths(chunk int, thorough bool) []int {
 	max := 3*chunk + 40
 	if thorough {
@@ -215,7 +224,7 @@ func TestC09(t *testing.T) {
 		wk, _ := caseInt(rc, "width")
 		var msg string
 		if kind == "binary" {
-			msg = checkBinary(mkBytes(int(n), uint64(n)), mkBytes(int(n)%7, 3))
+			msg = checkBinary(mkBytes(int(n), uint64(n)), c09Second(int(n)))
 		} else {
 			msg = checkString(mkString(int(cls), int(n), int(off), int(wk), uint64(n)), mkString(1, int(n)%5, 0, 0, 1))
 		}
@@ -238,7 +247,11 @@ func TestC09(t *testing.T) {
 				continue
 			}
 			s := mkString(cls, n, 0, 0, uint64(n))
-			if msg := checkString(s, mkString(1, n%5, 0, 0, 1)); msg != "" {
+			s2 := mkString(1, n%5, 0, 0, 1)
+			if n > strChunk {
+				s2 = mkString((cls+1)%5, n-3, 0, 0, uint64(n)+7) // a second multi-chunk string alive in the same message
+			}
+			if msg := checkString(s, s2); msg != "" {
 				failS(cls, n, 0, 0, msg)
 			}
 			r.EvalN(2)
@@ -276,7 +289,7 @@ func TestC09(t *testing.T) {
 			continue
 		}
 		p := mkBytes(n, uint64(n))
-		if msg := checkBinary(p, mkBytes(n%7, 3)); msg != "" {
+		if msg := checkBinary(p, c09Second(n)); msg != "" {
 			directFail(t, "C09", map[string]interface{}{"kind": "binary", "length": fmt.Sprint(n)}, "C09 binary length=%d: %s", n, msg)
 		}
 		r.EvalN(2)
